@@ -347,10 +347,15 @@ func (w *world) exec(ctx context.Context, op Op) (e ev) {
 			break
 		}
 		data := elemsToBytes(op.Data)
+		// Chunk = 1: the body is streamed (Transfer-Encoding: chunked, no Content-Length)
+		var reqBody io.Reader = bytes.NewReader(data)
+		if op.Chunk == 1 {
+			reqBody = struct{ io.Reader }{bytes.NewReader(data)}
+		}
 		var req *http.Request
 		switch op.Op {
 		case "RawPatch":
-			req, _ = http.NewRequestWithContext(ctx, "PATCH", loc, bytes.NewReader(data))
+			req, _ = http.NewRequestWithContext(ctx, "PATCH", loc, reqBody)
 		case "RawPut":
 			u, err := url.Parse(loc)
 			if err != nil {
@@ -360,7 +365,7 @@ func (w *world) exec(ctx context.Context, op Op) (e ev) {
 			q := u.Query()
 			q.Set("digest", string(w.digestOf(op.DD)))
 			u.RawQuery = q.Encode()
-			req, _ = http.NewRequestWithContext(ctx, "PUT", u.String(), bytes.NewReader(data))
+			req, _ = http.NewRequestWithContext(ctx, "PUT", u.String(), reqBody)
 		default:
 			req, _ = http.NewRequestWithContext(ctx, "GET", loc, nil)
 		}
